@@ -115,48 +115,50 @@ func VerifPoolOutstanding() (out [6]int) {
 // Quiescence ticks: counters the harness polls to know that the three server
 // loops have finished with everything it has sent, instead of sleeping.
 const (
-	verifTickReadLoop     = iota // the read loop is about to read the next frame
-	verifTickForwarded           // a frame was handed to the stream loop
-	verifTickStreamLoop          // the stream loop is about to wait for its next event
-	verifTickHandlerDone         // a handler goroutine reported back
-	verifTickQueued              // a frame was queued for the write loop
-	verifTickWritten             // the write loop has written (and released) a frame
-	verifTickDispatch            // a handler goroutine is about to be started
-	verifTickHandlerGone         // a handler returned after the stream loop had stopped
-	verifTickCliRead             // client read loop: about to read the next frame
-	verifTickCliRLExit           // client read loop has returned (its deferred Close included)
-	verifTickCliInSent           // Conn.Write put a Ctx on c.in
-	verifTickCliInTaken          // the client write loop took a Ctx from c.in
-	verifTickCliOutSent          // writeOut put a frame on c.out
-	verifTickCliOutTaken         // the client write loop took a frame from c.out
-	verifTickCliWinSent          // signalWindow put a token on winCh
-	verifTickCliWinTaken         // the client write loop took the winCh token
-	verifTickCliPingTaken        // the client write loop took a ping tick
-	verifTickCliWLTop            // the client write loop is about to select
-	verifTickCliWLExit           // writeLoop has returned (queues drained)
-	verifTickCliTimeout          // Ctx.fireTimeout has returned
-	verifTickCliCloseDone        // Conn.Close has closed c.done (and is about to write GOAWAY)
+	verifTickReadLoop           = iota // the read loop is about to read the next frame
+	verifTickForwarded                 // a frame was handed to the stream loop
+	verifTickStreamLoop                // the stream loop is about to wait for its next event
+	verifTickHandlerDone               // a handler goroutine reported back
+	verifTickQueued                    // a frame was queued for the write loop
+	verifTickWritten                   // the write loop has written (and released) a frame
+	verifTickDispatch                  // a handler goroutine is about to be started
+	verifTickHandlerGone               // a handler returned after the stream loop had stopped
+	verifTickCliRead                   // client read loop: about to read the next frame
+	verifTickCliRLExit                 // client read loop has returned (its deferred Close included)
+	verifTickCliInSent                 // Conn.Write put a Ctx on c.in
+	verifTickCliInTaken                // the client write loop took a Ctx from c.in
+	verifTickCliOutSent                // writeOut put a frame on c.out
+	verifTickCliOutTaken               // the client write loop took a frame from c.out
+	verifTickCliWinSent                // signalWindow put a token on winCh
+	verifTickCliWinTaken               // the client write loop took the winCh token
+	verifTickCliPingTaken              // the client write loop took a ping tick
+	verifTickCliWLTop                  // the client write loop is about to select
+	verifTickCliWLExit                 // writeLoop has returned (queues drained)
+	verifTickCliTimeout                // Ctx.fireTimeout has returned
+	verifTickCliCloseDone              // Conn.Close has closed c.done (and is about to write GOAWAY)
+	verifTickCliTimeoutResolved        // Ctx.fireTimeout has resolved the Ctx and is about to cancel the stream
 	verifTickCount
 )
 
 // The client tick kinds, for the harness (VerifClientTicks is indexed from
 // VerifTickCliFirst; VerifGate takes the absolute kind).
 const (
-	VerifTickCliFirst     = verifTickCliRead
-	VerifTickCliRead      = verifTickCliRead
-	VerifTickCliRLExit    = verifTickCliRLExit
-	VerifTickCliInSent    = verifTickCliInSent
-	VerifTickCliInTaken   = verifTickCliInTaken
-	VerifTickCliOutSent   = verifTickCliOutSent
-	VerifTickCliOutTaken  = verifTickCliOutTaken
-	VerifTickCliWinSent   = verifTickCliWinSent
-	VerifTickCliWinTaken  = verifTickCliWinTaken
-	VerifTickCliPingTaken = verifTickCliPingTaken
-	VerifTickCliWLTop     = verifTickCliWLTop
-	VerifTickCliWLExit    = verifTickCliWLExit
-	VerifTickCliTimeout   = verifTickCliTimeout
-	VerifTickCliCloseDone = verifTickCliCloseDone
-	VerifTickCount        = verifTickCount
+	VerifTickCliFirst           = verifTickCliRead
+	VerifTickCliRead            = verifTickCliRead
+	VerifTickCliRLExit          = verifTickCliRLExit
+	VerifTickCliInSent          = verifTickCliInSent
+	VerifTickCliInTaken         = verifTickCliInTaken
+	VerifTickCliOutSent         = verifTickCliOutSent
+	VerifTickCliOutTaken        = verifTickCliOutTaken
+	VerifTickCliWinSent         = verifTickCliWinSent
+	VerifTickCliWinTaken        = verifTickCliWinTaken
+	VerifTickCliPingTaken       = verifTickCliPingTaken
+	VerifTickCliWLTop           = verifTickCliWLTop
+	VerifTickCliWLExit          = verifTickCliWLExit
+	VerifTickCliTimeout         = verifTickCliTimeout
+	VerifTickCliCloseDone       = verifTickCliCloseDone
+	VerifTickCliTimeoutResolved = verifTickCliTimeoutResolved
+	VerifTickCount              = verifTickCount
 )
 
 var verifTicks [verifTickCount]int64
